@@ -117,9 +117,15 @@ class WrappedInstance:
     This is needed to clean it up from the cache after the instance reference died.
     """
 
+    instance_id: int = field(init=False, default=None)
+    """
+    The id of the instance. This is needed to clean it up from the instance index after the instance reference died.
+    """
+
     def __post_init__(self, instance: Symbol):
         self.instance_reference = weakref.ref(instance)
         self.instance_type = type(instance)
+        self.instance_id = id(instance)
 
     @property
     def instance(self) -> Optional[Symbol]:
@@ -227,10 +233,17 @@ class SymbolGraph(metaclass=SingletonMeta):
 
         :param wrapped_instance: The instance to remove.
         """
-        self._instance_index.pop(id(wrapped_instance.instance), None)
+        # The instance may be dead already and a new instance may have taken its id, hence only remove the entry of
+        # the instance index if it still belongs to this wrapped instance.
+        if self._instance_index.get(wrapped_instance.instance_id) is wrapped_instance:
+            del self._instance_index[wrapped_instance.instance_id]
         self._class_to_wrapped_instances[wrapped_instance.instance_type].remove(
             wrapped_instance
         )
+        # The index of the node is given to the next node that is added, hence forget the relations of this node.
+        for node_index_pairs in self._relation_index.values():
+            for pair in [p for p in node_index_pairs if wrapped_instance.index in p]:
+                node_index_pairs.discard(pair)
         self._instance_graph.remove_node(wrapped_instance.index)
 
     def remove_dead_instances(self):
@@ -285,6 +298,9 @@ class SymbolGraph(metaclass=SingletonMeta):
 
     def add_relation(self, relation: PredicateClassRelation) -> bool:
         """Add a relation edge to the instance graph."""
+        if relation.source.instance is None or relation.target.instance is None:
+            # an instance that is not swept yet but dead already does not take part in new relations
+            return False
         if self.relation_exists(relation):
             return False
         self._instance_graph.add_edge(
